@@ -129,7 +129,7 @@ def _keyword(rng, limit, taken, near=None):
 
 PROFILES = ["one", "pow2", "pow2_single", "boundary", "many_small", "mixed", "shared_ids", "big_list", "long_keywords", "structured_ids", "close_keywords"]
 # large databases (array indexes, counters and pointer widths beyond one byte); run for one configuration per scheme
-BIG_PROFILES = ["many_keywords", "long_list"]
+BIG_PROFILES = ["many_keywords", "long_list", "single_256"]
 
 
 def capacity(name, cfg):
@@ -181,6 +181,10 @@ def gen_db(name, cfg, rng, profile, scale=1):
         lens = [rng.randint(1, 4) for _ in range(150)]
     elif profile == "long_list_2byte":
         lens = [rng.randint(560, 640)] + [rng.randint(1, 3) for _ in range(3)]
+    elif profile == "single_256":
+        # the whole database is ONE list of 2^8 postings: t = 8 is the first level count that is a multiple of 8 (byte-width
+        # formulas of counters and lengths change there: the defect repaired by 7b4d508 lived exactly here)
+        lens = [256]
     elif profile == "long_list":
         lens = [rng.randint(290, 330)] + [rng.randint(1, 3) for _ in range(3)]
     else:
